@@ -351,97 +351,108 @@ func c08(r *rep.Run) {
 	for i := range first {
 		first[i] = i
 	}
-	r.ParallelFor(alpha, func(w, f0 int) {
-		hist := make([]int, depth)
-		hist[0] = f0
-		var rec func(k int)
-		runHist := func(k int) {
-			for rep := 0; rep < 2; rep++ { // second pass: same history again on fresh objects (map-order nondeterminism)
-				en := &c8env{}
-				cfgs := c8Configs(en)
-				snaps := make([]string, nC)
-				for i, c := range cfgs {
-					snaps[i] = c8Snapshot(c)
-				}
-				type earlier struct {
-					e   *eval.Expr
-					res string
-				}
-				var kept []earlier
-				for s := 0; s < k; s++ {
-					ci, si := hist[s]/len(c8Sources), hist[s]%len(c8Sources)
-					e, err := c8Compile(cfgs[ci], c8Sources[si])
-					got := c8Result(e, err)
-					atomic.AddInt64(&steps, 1)
-					// programs compiled earlier in this history are finished objects:
-					// a later compilation must not change what they are or do
-					for pk, pe := range kept {
-						if now := c8Result(pe.e, nil); now != pe.res {
+	// two passes: every history up to depth 3 first (always completed), then,
+	// in the thorough tier, the depth-4 histories alone (as far as the budget goes)
+	passes := [][2]int{{1, 3}}
+	if depth > 3 {
+		passes = append(passes, [2]int{depth, depth})
+	}
+	for _, pass := range passes {
+		minLen, maxLen := pass[0], pass[1]
+		r.ParallelFor(alpha, func(w, f0 int) {
+			hist := make([]int, maxLen)
+			hist[0] = f0
+			var rec func(k int)
+			runHist := func(k int) {
+				for rep := 0; rep < 2; rep++ { // second pass: same history again on fresh objects (map-order nondeterminism)
+					en := &c8env{}
+					cfgs := c8Configs(en)
+					snaps := make([]string, nC)
+					for i, c := range cfgs {
+						snaps[i] = c8Snapshot(c)
+					}
+					type earlier struct {
+						e   *eval.Expr
+						res string
+					}
+					var kept []earlier
+					for s := 0; s < k; s++ {
+						ci, si := hist[s]/len(c8Sources), hist[s]%len(c8Sources)
+						e, err := c8Compile(cfgs[ci], c8Sources[si])
+						got := c8Result(e, err)
+						atomic.AddInt64(&steps, 1)
+						// programs compiled earlier in this history are finished objects:
+						// a later compilation must not change what they are or do
+						for pk, pe := range kept {
+							if now := c8Result(pe.e, nil); now != pe.res {
+								var h []string
+								for _, x := range hist[:s+1] {
+									h = append(h, sprintf("Compile(config%c, %q)", 'A'+x/len(c8Sources), c8Sources[x%len(c8Sources)]))
+								}
+								r.Violate("earlier-program-changed", sprintf("%d/%d", hist[pk], hist[s]), sprintf("the program compiled at step %d changed when step %d compiled another source", pk+1, s+1), map[string]interface{}{"history": h, "before": pe.res, "after": now})
+								kept[pk].res = now
+							}
+						}
+						if err == nil && e != nil {
+							kept = append(kept, earlier{e, got})
+						}
+						d := func() map[string]interface{} {
 							var h []string
 							for _, x := range hist[:s+1] {
 								h = append(h, sprintf("Compile(config%c, %q)", 'A'+x/len(c8Sources), c8Sources[x%len(c8Sources)]))
 							}
-							r.Violate("earlier-program-changed", sprintf("%d/%d", hist[pk], hist[s]), sprintf("the program compiled at step %d changed when step %d compiled another source", pk+1, s+1), map[string]interface{}{"history": h, "before": pe.res, "after": now})
-							kept[pk].res = now
+							return map[string]interface{}{"history": h}
 						}
-					}
-					if err == nil && e != nil {
-						kept = append(kept, earlier{e, got})
-					}
-					d := func() map[string]interface{} {
-						var h []string
-						for _, x := range hist[:s+1] {
-							h = append(h, sprintf("Compile(config%c, %q)", 'A'+x/len(c8Sources), c8Sources[x%len(c8Sources)]))
-						}
-						return map[string]interface{}{"history": h}
-					}
-					if got != iso[ci][si] {
-						m := d()
-						m["got"], m["isolated"] = got, iso[ci][si]
-						r.Violate("history-result", sprintf("%d/%d", ci, si), sprintf("Compile(config%c, %q) yields a different program after earlier compilations than when made first", 'A'+ci, c8Sources[si]), m)
-					}
-					for i, c := range cfgs {
-						if now := c8Snapshot(c); now != snaps[i] {
+						if got != iso[ci][si] {
 							m := d()
-							m["before"], m["after"] = snaps[i], now
-							r.Violate("config-modified", sprintf("%d/%d/%d", ci, si, i), sprintf("Compile(config%c, %q) modified caller config %c", 'A'+ci, c8Sources[si], 'A'+i), m)
-							snaps[i] = now
+							m["got"], m["isolated"] = got, iso[ci][si]
+							r.Violate("history-result", sprintf("%d/%d", ci, si), sprintf("Compile(config%c, %q) yields a different program after earlier compilations than when made first", 'A'+ci, c8Sources[si]), m)
+						}
+						for i, c := range cfgs {
+							if now := c8Snapshot(c); now != snaps[i] {
+								m := d()
+								m["before"], m["after"] = snaps[i], now
+								r.Violate("config-modified", sprintf("%d/%d/%d", ci, si, i), sprintf("Compile(config%c, %q) modified caller config %c", 'A'+ci, c8Sources[si], 'A'+i), m)
+								snaps[i] = now
+							}
 						}
 					}
 				}
-			}
-			if atomic.AddInt64(&histories, 1)%64 == 0 {
-				r.Tick()
-			}
-			if k >= 2 {
-				si := hist[0] % len(c8Sources)
-				if strings.HasPrefix(c8Sources[si], ";") || strings.HasPrefix(iso[hist[0]/len(c8Sources)][si], "error") {
-					atomic.AddInt64(&nontrivial, 1)
+				if atomic.AddInt64(&histories, 1)%64 == 0 {
+					r.Tick()
+				}
+				if k >= 2 {
+					si := hist[0] % len(c8Sources)
+					if strings.HasPrefix(c8Sources[si], ";") || strings.HasPrefix(iso[hist[0]/len(c8Sources)][si], "error") {
+						atomic.AddInt64(&nontrivial, 1)
+					}
 				}
 			}
-		}
-		rec = func(k int) {
-			if k >= 3 && r.Expired() {
-				r.Capped("C08 compile-history enumeration reached its time budget; shorter histories were completed first within each shard")
-				return
-			}
-			runHist(k)
-			if k == depth {
-				return
-			}
-			for c := 0; c < alpha; c++ {
-				// the last step of a depth-3+ history is one of the probing
-				// sources (those whose result depends on what could have leaked)
-				if k >= 2 && !c8Probe[c%len(c8Sources)] {
-					continue
+			rec = func(k int) {
+				if minLen > 3 && k >= 3 && r.Expired() {
+					r.Capped("C08: the depth-4 compile histories reached the time budget (every history up to depth 3 was completed before)")
+					return
 				}
-				hist[k] = c
-				rec(k + 1)
+				if k >= minLen {
+					runHist(k)
+				}
+				if k == maxLen {
+					return
+				}
+				for c := 0; c < alpha; c++ {
+					// the last step of a depth-3+ history is one of the probing
+					// sources (those whose result depends on what could have leaked)
+					if k >= 2 && !c8Probe[c%len(c8Sources)] {
+						continue
+					}
+					hist[k] = c
+					rec(k + 1)
+				}
 			}
-		}
-		r.Note(w, sprintf("histories starting with %d", f0))
-		rec(1)
-	})
+			r.Note(w, sprintf("histories starting with %d", f0))
+			rec(1)
+		})
+	}
 	r.Cov["compile_histories"] = histories
 	r.Cov["history_depth"] = depth
 	r.Sample(3, map[string]interface{}{"history": []string{"Compile(configA, " + c8Sources[1] + ")", "Compile(configB, " + c8Sources[0] + ")", "Compile(configA, " + c8Sources[0] + ")"}})
